@@ -31,10 +31,13 @@ type ECase struct {
 	// product's own (HTTP GET /ping with its time-out, lowered to 1 s); a dead
 	// replica then is one whose /ping is not answered in time (a hung process),
 	// not one that refuses the connection
-	RealProbe bool      `json:"realprobe,omitempty"`
-	RF        int       `json:"rf"`
-	Specs     []RegSpec `json:"specs"`
-	Ops       []EOp     `json:"ops"`
+	RealProbe bool `json:"realprobe,omitempty"`
+	// ViaREST: registrations go through the product's controller client and the
+	// controller's POST /v1/register handler instead of Controller.RegisterReplica
+	ViaREST bool      `json:"viarest,omitempty"`
+	RF      int       `json:"rf"`
+	Specs   []RegSpec `json:"specs"`
+	Ops     []EOp     `json:"ops"`
 }
 
 // prepareNodeState gives the node's directory the revision counter and state it reports.
@@ -76,6 +79,12 @@ func runECase(ec ECase) (*Fail, []string, map[string]int, error) {
 		remote.VerifyReplicaAliveTimeout = time.Second
 		defer func() { remote.VerifyReplicaAliveTimeout = oldT }()
 		labels["real-liveness-probe"]++
+	}
+	if ec.ViaREST {
+		labels["registration-via-rest"]++
+	}
+	if len(ec.Specs) > 0 && ec.Specs[0].Rev > 1<<31 {
+		labels["revision-counts-beyond-2^31"]++
 	}
 	for i, sp := range ec.Specs {
 		if err := prepareNodeState(st.Nodes[i], sp); err != nil {
@@ -169,7 +178,21 @@ func runECase(ec ECase) (*Fail, []string, map[string]int, error) {
 			}
 			st.Fac.mu.Unlock()
 			reg := types.RegReplica{Address: ip, UUID: fmt.Sprintf("uuid-%d", i), RevCount: sp.Rev, RepType: "Backend", RepState: sp.State}
-			err := st.C.RegisterReplica(reg)
+			var err error
+			if ec.ViaREST {
+				// the way a replica process registers; the REST reply carries no error:
+				// what Controller.RegisterReplica returns (a failed start signal) is read off the signals
+				if e := st.RegisterREST(reg); e != nil {
+					return nil, nil, nil, fmt.Errorf("POST /v1/register: %v", e)
+				}
+				for _, sg := range st.Fac.SignalsCopy()[before:] {
+					if sg.Err != nil {
+						err = sg.Err
+					}
+				}
+			} else {
+				err = st.C.RegisterReplica(reg)
+			}
 			for a, r := range regModel {
 				if r.UUID == reg.UUID && a != ip {
 					delete(regModel, a) // the same replica registering from a new address
@@ -334,9 +357,22 @@ func runECase(ec ECase) (*Fail, []string, map[string]int, error) {
 						maxRev = rv
 					}
 				}
+				upToDate := 0
+				for _, r := range vs.Replicas {
+					if revs[r.Address] == maxRev && r.Mode == types.RW {
+						upToDate++
+					}
+				}
 				for _, r := range vs.Replicas {
 					if revs[r.Address] < maxRev && r.Mode == types.RW {
-						return fail("election|stale-replica-readable", fmt.Sprintf("%s has revision %d < %d but is RW after start: %v", r.Address, revs[r.Address], maxRev, vs.Replicas), "C09", "C04"), trace, labels, nil
+						props := []string{"C09", "C04"}
+						detail := fmt.Sprintf("%s has revision %d < %d but is RW after start: %v", r.Address, revs[r.Address], maxRev, vs.Replicas)
+						if !vs.ReadOnly && upToDate < ec.RF/2+1 {
+							// the stale replica is counted as up to date: the volume accepts writes below its quorum
+							props = append(props, "C03")
+							detail += fmt.Sprintf("; the volume is writable (ReadOnly=false, RWReplicaCount=%d) although only %d of RF=%d replicas are up to date", vs.RWReplicaCount, upToDate, ec.RF)
+						}
+						return fail("election|stale-replica-readable", detail, props...), trace, labels, nil
 					}
 				}
 				if len(addrs) > 1 {
@@ -430,9 +466,12 @@ func genECase(t *rapid.T) ECase {
 	rf := rapid.SampledFrom([]int{1, 2, 3, 3, 4, 5, 5}).Draw(t, "rf")
 	n := rapid.IntRange(max(1, rf-1), rf+1).Draw(t, "nodes")
 	ec := ECase{RF: rf, RealProbe: rapid.IntRange(0, 2).Draw(t, "realprobe") == 0}
+	ec.ViaREST = rapid.Bool().Draw(t, "viarest")
+	// revision counts of a young volume, of one around and beyond 2^31 and 2^32 writes, and of 2^62
+	base := rapid.SampledFrom([]int64{0, 0, 0, 1<<31 - 6, 1<<32 - 6, 3000000000, 1 << 40, 1 << 62}).Draw(t, "revbase")
 	for i := 0; i < n; i++ {
 		ec.Specs = append(ec.Specs, RegSpec{
-			Rev:   rapid.Int64Range(1, 12).Draw(t, "rev"),
+			Rev:   base + rapid.Int64Range(1, 12).Draw(t, "rev"),
 			State: rapid.SampledFrom([]string{"closed", "closed", "closed", "dirty", "rebuilding"}).Draw(t, "state"),
 		})
 	}
@@ -587,6 +626,11 @@ func TestC09(t *testing.T) { runElectionProperty(t, "C09", "TestC09") }
 // TestC04Bootstrap — after a (multi-address) start only replicas with the highest
 // revision count are RW and serve reads.
 func TestC04Bootstrap(t *testing.T) { runElectionProperty(t, "C04", "TestC04Bootstrap") }
+
+// TestC03Bootstrap — a start never leaves the volume writable with fewer than a
+// quorum of up-to-date replicas (a stale replica kept RW counts towards it), and
+// the read-only status follows every step of a bootstrap.
+func TestC03Bootstrap(t *testing.T) { runElectionProperty(t, "C03", "TestC03Bootstrap") }
 
 // TestC18Bootstrap — the membership bookkeeping stays consistent through
 // registrations, failed and multi-address starts and a second bootstrap.
